@@ -552,7 +552,7 @@ class Inherit(Family):
                 ("clear-derived-leaf", "edit", lambda st: ("clear", "Sub", "b")
                  if _alive(st, "Base", "b") and "Sub" not in st["unbased"] else None),
                 ("override-formula-in-sub", "edit", lambda st: ("setformula", "Sub", "a", F("a", "", "b() + r + 1", "a", "()", "(_space.fullname + '.r',)"))
-                 if ("Sub", "a") not in st["overridden"] else None),
+                 if ("Sub", "a") not in st["overridden"] and "Sub" not in st["unbased"] else None),
                 ("remove-base", "edit", lambda st: ("raw", "m.Sub.remove_bases(m.Base)") if "Sub" not in st["unbased"] else None)]
 
 
